@@ -12,7 +12,11 @@ from rules.g_struct import lexeme_fn
 
 
 class Bad(Exception):
-    pass
+    """a recognised construct that visibly breaks coverage / adjacency: a violation"""
+
+
+class Unmodelled(Exception):
+    """a construct the interpreter does not model: the lexeme is UNDECIDED, not wrong"""
 
 
 class Env:
@@ -57,6 +61,8 @@ def covers(pe, g, ctx):
             val = eval_expr(f['body'], env, g, ctx)
         except Bad:
             return False
+        except Unmodelled:
+            raise
         return val[0] == 'R' and full(val, n, env.empties)
     return False
 
@@ -92,7 +98,7 @@ def bind_pattern(pat, pe, env, k, g, ctx):
                 raise Bad('fold_many0 over a parser whose output does not cover what it consumes')
             init, f = pe['init'], pe['f']
             if init.get('k') != 'closure' or init['params'] or f.get('k') != 'closure' or len(f['params']) != 2:
-                raise Bad('fold_many0 with unmodelled init / fold closures')
+                raise Unmodelled('fold_many0 with unmodelled init / fold closures')
             iv = eval_expr(init['body'], env, g, ctx)
             acc, item = [sx.pat_idents(p)[0] for p in f['params']]
             e2 = env.copy()
@@ -108,7 +114,7 @@ def bind_pattern(pat, pe, env, k, g, ctx):
         return k + 1
     if pat.get('k') == 'wild':
         raise Bad('`_` pattern in a lexeme function')
-    raise Bad('unmodelled pattern %s against %s' % (sx.render(pat), grammar.show(pe)[:40]))
+    raise Unmodelled('pattern %s against %s' % (sx.render(pat), grammar.show(pe)[:40]))
 
 
 def gap_free(b, a2, empties):
@@ -128,14 +134,14 @@ def eval_expr(e, env, g, ctx):
             return ('ON',)
         if n in env.v:
             return env.v[n]
-        raise Bad('unknown value `%s`' % n)
+        raise Unmodelled('unknown value `%s`' % n)
     if k == 'call' and sx.is_path(e['f']):
         fn = e['f']['p']
         if fn == 'concat' and len(e['args']) == 2:
             x = eval_expr(e['args'][0], env, g, ctx)
             y = eval_expr(e['args'][1], env, g, ctx)
             if x[0] != 'R' or y[0] != 'R':
-                raise Bad('concat of non-span values %s, %s' % (x, y))
+                raise Unmodelled('concat of non-span values %s, %s' % (x, y))
             if not gap_free(x[2], y[1], env.empties):
                 raise Bad('concat(%s, %s): the second fragment (slots %d..%d) does not start where the first (slots %d..%d) ends — '
                           'str_concat fails and the unwrap panics, or text in between is lost' %
@@ -145,10 +151,24 @@ def eval_expr(e, env, g, ctx):
             v = eval_expr(e['args'][0], env, g, ctx)
             if v[0] == 'R':
                 return ('OS', v[1], v[2])
-            raise Bad('Some(%s)' % (v,))
+            raise Unmodelled('Some(%s)' % (v,))
         if fn == 'into_locate' and len(e['args']) == 1:
             return eval_expr(e['args'][0], env, g, ctx)
-        raise Bad('call of %s in a lexeme computation' % fn)
+        if fn in g.fns and g.fns[fn].kind == 'other' and fn in getattr(g, 'concat_helpers', ()) and ctx.get('depth', 0) < 3:
+            # local helper that joins fragments: interpret its body with the arguments bound
+            h = g.fns[fn]
+            ps = [p for p in h.item['sig']['params'] if p.get('k') == 'typed']
+            if len(ps) == len(e['args']):
+                e2 = Env()
+                for p_, a_ in zip(ps, e['args']):
+                    e2.v[sx.pat_idents(p_['pat'])[0]] = eval_expr(a_, env, g, ctx)
+                e2.empties = set(env.empties)
+                ctx['depth'] = ctx.get('depth', 0) + 1
+                try:
+                    return eval_block(h.item['body'], e2, g, ctx)
+                finally:
+                    ctx['depth'] -= 1
+        raise Unmodelled('call of %s in a lexeme computation' % fn)
     if k == 'mcall' and e['m'] == 'unwrap' and not e['args']:
         v = eval_expr(e['recv'], env, g, ctx)
         ctx['unwrap_nodes'].add((e.get('l'), e.get('col')))
@@ -162,7 +182,7 @@ def eval_expr(e, env, g, ctx):
         if pat.get('k') == 'ts' and pat['p'] == 'Some' and len(pat['e']) == 1 and pat['e'][0].get('k') == 'ident' and sx.is_path(src):
             sv = env.v.get(src['p'])
             if sv is None:
-                raise Bad('unknown option `%s`' % src['p'])
+                raise Unmodelled('unknown option `%s`' % src['p'])
             te, fe = env.copy(), env.copy()
             if sv[0] in ('O', 'OX'):
                 te.v[pat['e'][0]['n']] = ('R', sv[1], sv[1])
@@ -174,9 +194,9 @@ def eval_expr(e, env, g, ctx):
                 if sv[0] == 'OS':
                     te.v[pat['e'][0]['n']] = ('R', sv[1], sv[2])
                     return eval_block(e['t'], te, g, ctx)
-                raise Bad('unmodelled option state')
+                raise Unmodelled('option state')
             else:
-                raise Bad('if-let on a non-option value %s' % (sv,))
+                raise Unmodelled('if-let on a non-option value %s' % (sv,))
             tv = eval_block(e['t'], te, g, ctx)
             fv = eval_block(e['e'], fe, g, ctx)
             # both branches must denote the same coverage (the None branch has an empty slot)
@@ -187,10 +207,52 @@ def eval_expr(e, env, g, ctx):
                     env.empties |= (fe.empties - te.empties) & set()   # slot may or may not be empty: keep coverage hi
                     return ('R', tv[1], hi)
             raise Bad('the two branches of `if let Some(..)` cover different text: %s vs %s' % (tv, fv))
-        raise Bad('unmodelled if-let %s' % sx.render(e['c'])[:60])
+        raise Unmodelled('if-let %s' % sx.render(e['c'])[:60])
+    if k == 'match' and sx.is_path(e['e']) and len(e['arms']) == 2:
+        # match opt { Some(x) => A, None => B }  ==  if let Some(x) = opt { A } else { B }
+        some = [a for a in e['arms'] if a['pat'].get('k') == 'ts' and a['pat']['p'] == 'Some']
+        none = [a for a in e['arms'] if sx.render(a['pat']) in ('None', '_')]
+        if len(some) == 1 and len(none) == 1:
+            as_block = lambda x: x if x.get('k') == 'block' else {'k': 'block', 'stmts': [{'k': 'expr', 'e': x, 'semi': False}]}
+            return eval_expr({'k': 'if', 'c': {'k': 'let', 'pat': some[0]['pat'], 'e': e['e']}, 't': as_block(some[0]['body']),
+                              'e': as_block(none[0]['body'])}, env, g, ctx)
+    if k == 'mcall' and e['m'] in ('into_iter', 'iter') and not e['args']:
+        return eval_expr(e['recv'], env, g, ctx)
+    if k == 'mcall' and e['m'] == 'fold' and len(e['args']) == 2 and e['args'][1].get('k') == 'closure':
+        # V.into_iter().fold(init, |acc, x| concat(acc, x).unwrap())
+        vec = eval_expr(e['recv'], env, g, ctx)
+        init = eval_expr(e['args'][0], env, g, ctx)
+        cl = e['args'][1]
+        if vec[0] == 'V' and init[0] == 'R' and len(cl['params']) == 2:
+            acc, item = [sx.pat_idents(p)[0] for p in cl['params']]
+            k_ = vec[1]
+            if not gap_free(init[2], k_, env.empties):
+                raise Bad('fold starts from a value (slots %d..%d) that does not end where the folded fragments (slot %d) begin' % (init[1], init[2], k_))
+            e2 = env.copy()
+            e2.v[acc] = ('R', init[1], k_ - 1)
+            e2.v[item] = ('R', k_, k_)
+            res = eval_expr(cl['body'], e2, g, ctx)
+            if res != ('R', init[1], k_):
+                raise Bad('fold must extend the accumulator by each element in order (found %s)' % (res,))
+            return ('R', init[1], k_)
+        raise Unmodelled('fold over %s' % (vec,))
+    if k == 'call' and sx.is_path(e['f']) and e['f']['p'] in g.fns and g.fns[e['f']['p']].kind == 'other' and e['f']['p'] in getattr(g, 'concat_helpers', ()):
+        # local helper that joins fragments: interpret its body with the arguments bound
+        h = g.fns[e['f']['p']]
+        ps = [p for p in h.item['sig']['params'] if p.get('k') == 'typed']
+        if len(ps) == len(e['args']) and ctx.get('depth', 0) < 3:
+            e2 = Env()
+            for p_, a_ in zip(ps, e['args']):
+                e2.v[sx.pat_idents(p_['pat'])[0]] = eval_expr(a_, env, g, ctx)
+            e2.empties = set(env.empties)
+            ctx['depth'] = ctx.get('depth', 0) + 1
+            try:
+                return eval_block(h.item['body'], e2, g, ctx)
+            finally:
+                ctx['depth'] -= 1
     if k == 'block':
         return eval_block(e, env, g, ctx)
-    raise Bad('unmodelled expression `%s`' % sx.render(e)[:60])
+    raise Unmodelled('expression `%s`' % sx.render(e)[:60])
 
 
 def eval_block(b, env, g, ctx):
@@ -202,7 +264,7 @@ def eval_block(b, env, g, ctx):
     last = stmts[-1]
     if last['k'] == 'expr' and not last.get('semi'):
         return eval_expr(last['e'], env, g, ctx)
-    raise Bad('block without a value')
+    raise Unmodelled('block without a value')
 
 
 def exec_stmt(st, env, g, ctx):
@@ -214,17 +276,17 @@ def exec_stmt(st, env, g, ctx):
         vec = env.v.get(fo['e']['p'])
         ids = sx.pat_idents(fo['pat'])
         if vec is None or vec[0] != 'V' or len(ids) != 1:
-            raise Bad('loop over a non-vector value')
+            raise Unmodelled('loop over a non-vector value')
         k, nonempty = vec[1], vec[2]
         x = ids[0]
         body = fo['body']['stmts']
         if len(body) != 1 or body[0]['k'] != 'expr' or body[0]['e'].get('k') != 'assign' or not sx.is_path(body[0]['e']['l_']):
-            raise Bad('unmodelled fold loop body')
+            raise Unmodelled('fold loop body')
         acc = body[0]['e']['l_']['p']
         a0 = env.v.get(acc)
         rhs = body[0]['e']['r']
         if a0 is None:
-            raise Bad('fold loop accumulator `%s` unknown' % acc)
+            raise Unmodelled('fold loop accumulator `%s` unknown' % acc)
         if a0[0] == 'R':
             # acc = concat(acc, x).unwrap()
             e2 = env.copy()
@@ -252,8 +314,20 @@ def exec_stmt(st, env, g, ctx):
                 raise Bad('option-fold loop must start with the first element and extend by each next element (found %s / %s)' % (r1, r2))
             env.v[acc] = ('OS', k, k) if nonempty else ('OX', k)
             return
-        raise Bad('unmodelled accumulator state %s' % (a0,))
-    raise Bad('unmodelled statement `%s`' % sx.render(st)[:60])
+        raise Unmodelled('accumulator state %s' % (a0,))
+    if st['k'] == 'expr' and st['e'].get('k') == 'if' and 'e' not in st['e'] and st['e']['c'].get('k') != 'let':
+        # if COND { return Ok((s, into_locate(X))); }   — an early successful exit: X must cover everything consumed so far
+        body = st['e']['t']['stmts']
+        if len(body) == 1 and body[0]['k'] == 'expr' and body[0]['e'].get('k') == 'return':
+            targets = [n for n in sx.walk(body[0]['e']) if sx.is_call(n, 'into_locate')]
+            if targets:
+                for t_ in targets:
+                    v = eval_expr(t_['args'][0], env, g, ctx)
+                    ctx.setdefault('early', []).append(v)
+                return
+            if sx.is_call(body[0]['e'].get('e', {}), 'Err'):
+                return
+    raise Unmodelled('statement `%s`' % sx.render(st)[:60])
 
 
 def run(ctx):
@@ -261,6 +335,7 @@ def run(ctx):
     r = RuleResult('G2', 'lexemes: the Locate/Span returned covers every fragment consumed, fragments are joined in order')
     lex = [f for f in g.parsers() if lexeme_fn(f)]
     actx = {'span_refs': set(), 'unwrap_nodes': set()}
+    undecided_fns = set()
     total_unwraps_src = 0
     for f in lex:
         where = '%s/%s:%d' % (g.crate, f.file, f.line)
@@ -274,8 +349,14 @@ def run(ctx):
                 elif st[0] == 'other':
                     exec_stmt(st[1], env, g, actx)
                 else:
-                    raise Bad('unmodelled statement kind %s' % st[0])
-            if f.tail[0] == 'ok':
+                    raise Unmodelled('statement kind %s' % st[0])
+            for v in actx.pop('early', []):
+                if not full(v, k, env.empties):
+                    raise Bad('an early return converts a value covering slots %s..%s of the %d consumed' % (v[1], v[2], k))
+            if f.tail[0] == 'other' and isinstance(f.tail[1], dict) and sx.is_call(f.tail[1], 'Err') and f.name not in undecided_fns \
+                    and any(sx.is_call(n, 'into_locate') for n in sx.walk(f.item['body'])):
+                pass    # result produced by an early return (checked above); the tail is the failure
+            elif f.tail[0] == 'ok':
                 node = f.tail[2]
                 # the expression given to into_locate (or the span returned)
                 targets = [n for n in sx.walk(node) if sx.is_call(n, 'into_locate')]
@@ -293,12 +374,25 @@ def run(ctx):
                 if not covers(f.tail[1], g, actx) and not (f.tail[1].get('op') == 'map'):
                     raise Bad('tail combinator output does not cover what it consumes')
             else:
-                raise Bad('unmodelled result')
+                # other result shapes (early return, match): every into_locate(X) in the result must cover all slots
+                tail_e = f.tail[1] if len(f.tail) > 1 and isinstance(f.tail[1], dict) else None
+                targets = [n for n in sx.walk(tail_e)] if tail_e else []
+                targets = [n for n in targets if sx.is_call(n, 'into_locate')]
+                if not targets:
+                    raise Unmodelled('result expression')
+                for t_ in targets:
+                    v = eval_expr(t_['args'][0], env, g, actx)
+                    if not full(v, k, env.empties):
+                        raise Bad('the value converted to the token (%s) covers slots %s..%s of the %d consumed' % (sx.render(t_['args'][0]), v[1], v[2], k))
             r.inst(f.name, {'lexeme': f.name, 'slots': k, 'result': sx.render(f.tail[2])[:60] if f.tail[0] == 'ok' else 'combinator'}
                    if r.instances % 5 == 0 else None)
         except Bad as b:
             r.inst(f.name)
             r.fail('%s:%s:lexeme' % (g.crate, f.name), where, '%s: %s' % (f.name, b))
+        except Unmodelled as u:
+            r.inst(f.name)
+            undecided_fns.add(f.name)
+            r.undecided('%s:%s:lexeme' % (g.crate, f.name), where, '%s: %s is not modelled by the lexeme interpreter' % (f.name, u))
     # inline token definitions map(<raw lexer>, |x| ..into_locate(x)..): single fragment — x must be used
     ninline = 0
     for f in g.parsers():
@@ -318,9 +412,10 @@ def run(ctx):
     actx['unwraps'] = len(actx['unwrap_nodes'])
     r.counts['unwraps_discharged'] = actx['unwraps']
     ctx.g2_unwraps = set(actx['unwrap_nodes'])
+    ctx.g2_undecided = set(undecided_fns)
     r.counts['unwraps_in_lexeme_sources'] = total_unwraps_src
     r.floor('lexeme_functions', len(lex), 24)
-    if actx['unwraps'] < total_unwraps_src and not r.findings:
+    if actx['unwraps'] < total_unwraps_src and not r.findings and not undecided_fns:
         r.fail('%s:unwraps-not-all-visited' % g.crate, '-', 'only %d of the %d unwrap() calls in lexeme functions were visited by the '
                'interpreter (fail closed)' % (actx['unwraps'], total_unwraps_src))
 
@@ -347,14 +442,28 @@ def run(ctx):
     r4.exactly('new_from_raw_offset_sites(concat role)', len(raw), 1)
     for fl, fn, n in raw:
         ps = [sx.pat_idents(p['pat'])[0] for p in fn['sig']['params']]
-        args = [sx.render(a).replace(' ', '') for a in n['args']]
+        # locals bound once to a simple expression are resolved (let offset = a.location_offset();)
+        loc_lets = {}
+        for st_ in sx.walk(fn['body']):
+            if st_.get('k') == 'let' and 'pat' in st_ and 'init' in st_ and st_['pat'].get('k') == 'ident':
+                loc_lets.setdefault(st_['pat']['n'], []).append(st_['init'])
+        def res_(a_):
+            if sx.is_path(a_) and len(loc_lets.get(a_['p'], [])) == 1 and a_['p'] not in ps:
+                return loc_lets[a_['p']][0]
+            return a_
+        args = [sx.render(res_(a)).replace(' ', '') for a in n['args']]
         r4.inst('concat', {'fn': fn['name'], 'args': args})
         ok = len(ps) == 2 and len(args) == 4 and args[0] == '%s.location_offset()' % ps[0] and args[1] == '%s.location_line()' % ps[0] \
             and args[3] == '%s.extra' % ps[0]
         # the joined fragment is str_concat::concat(a.fragment(), b.fragment()) in that order
         sc = [x for x in sx.walk(fn['body']) if x.get('k') == 'call' and sx.is_path(x['f']) and x['f']['p'].endswith('str_concat::concat')]
-        ok = ok and len(sc) == 1 and [sx.render(a).replace(' ', '') for a in sc[0]['args']] == ['%s.fragment()' % ps[0], '%s.fragment()' % ps[1]]
-        if not ok:
+        frag_ok = len(sc) == 1 and [sx.render(res_(a)).replace(' ', '') for a in sc[0]['args']] == ['%s.fragment()' % ps[0], '%s.fragment()' % ps[1]]
+        wrong_first = len(ps) == 2 and len(args) == 4 and (args[0] == '%s.location_offset()' % ps[1] or args[1] == '%s.location_line()' % ps[1]
+                                                            or (len(sc) == 1 and [sx.render(res_(a)).replace(' ', '') for a in sc[0]['args']] == ['%s.fragment()' % ps[1], '%s.fragment()' % ps[0]]))
+        if not (ok and frag_ok) and not wrong_first:
+            r4.undecided('%s:%s:concat-position' % (g.crate, fn['name']), '%s/%s:%s' % (g.crate, fl, n.get('l')),
+                         '%s: how the joined span gets its position is not recognised (%s)' % (fn['name'], args))
+        elif not (ok and frag_ok):
             r4.fail('%s:%s:concat-position' % (g.crate, fn['name']), '%s/%s:%s' % (g.crate, fl, n.get('l')),
                     '%s must join first.fragment() ++ second.fragment() and keep offset/line/extra of the FIRST fragment; found %s' % (fn['name'], args))
     return [r, r4]
